@@ -221,6 +221,7 @@ instance : ToKey Str Val := ⟨Val.str⟩
 instance {κ ν K} [DecidableEq κ] [ToKey K κ] : GetItem (Dict κ ν) K ν :=
   ⟨fun d k => match d.get? (toKey k) with | some v => pure v | Option.none => throw .key⟩
 instance {α} : GetItem (List α) Int α := ⟨listGet⟩
+instance {α} : GetItem (α × α) Int α := ⟨fun p i => listGet [p.1, p.2] i⟩
 
 /-- slice `l[a:b]` with Python's clamping; `none` = omitted bound -/
 def clampIndex (i : Option Int) (n : Nat) (dflt : Nat) : Nat :=
@@ -364,6 +365,48 @@ def parseInt (s : Str) : M Int :=
   let ds' := ds.filter (· ≠ '_')
   if ds' = [] ∨ ds'.all isAsciiDigit = false ∨ okUnderscores = false ∨ ds'.length > intMaxStrDigits then throw .value
   else pure (if neg then - (digitsToNat ds' : Int) else (digitsToNat ds' : Int))
+
+/-- `s.replace(old, new)` for non-empty `old` -/
+def replaceAllAux (old new : Str) (fuel : Nat) (s : Str) : Str :=
+  match fuel with
+  | 0 => s
+  | fuel + 1 =>
+    match s with
+    | [] => []
+    | c :: cs =>
+      if old ≠ [] ∧ old.isPrefixOf s then new ++ replaceAllAux old new fuel (s.drop old.length)
+      else c :: replaceAllAux old new fuel cs
+def replaceAll (s old new : Str) : Str := replaceAllAux old new (s.length + 1) s
+
+/-- `f"{s: <w}"`-style padding -/
+def padRight (s : Str) (w : Nat) (fill : Char) : Str := s ++ List.replicate (w - s.length) fill
+def padLeft (s : Str) (w : Nat) (fill : Char) : Str := List.replicate (w - s.length) fill ++ s
+
+/-- the one regular expression used by the code: `re.compile(r"ENDPTS=\(.+\)").search(s)`.
+Leftmost match; `.+` is greedy and does not cross a newline, so the match runs to the last `)` on
+the line with at least one character between the parentheses. -/
+def lastParenIdx (l : Str) : Option Nat :=
+  let idxs := (List.range l.length).filter (fun i => l[i]? = some ')' ∧ i ≥ 1)
+  idxs.getLast?
+def searchEndptsAux (fuel : Nat) (s : Str) : Option Str :=
+  match fuel with
+  | 0 => Option.none
+  | fuel + 1 =>
+    match s with
+    | [] => Option.none
+    | _ :: cs =>
+      if (py!"ENDPTS=(").isPrefixOf s then
+        let line := (s.drop 8).takeWhile (· ≠ '\n')
+        match lastParenIdx line with
+        | some j => some (s.take (8 + j + 1))
+        | Option.none => searchEndptsAux fuel cs
+      else searchEndptsAux fuel cs
+def searchEndpts (s : Str) : Option Str := searchEndptsAux (s.length + 1) s
+
+/-- `sorted(xs, key=f)` where evaluating `f` may raise -/
+def sortedByKeyM {α κ} [POrd κ] (xs : List α) (f : α → M κ) : M (List α) := do
+  let ks ← xs.mapM f
+  pure (((List.zip ks xs).mergeSort (fun a b => !POrd.lt b.1 a.1)).map Prod.snd)
 
 /-- `x in xs` -/
 def pyIn {α} [DecidableEq α] (a : α) (l : List α) : Bool := decide (a ∈ l)
